@@ -31,7 +31,10 @@ CONSTANTS
     Window,                                  \* out-of-order window of a message ratchet (1024 in mls-rs)
     Retention,                               \* number of prior epochs a storage provider retains
     MaxApps,                                 \* bound on application message bursts
-    BurstSizes                               \* sizes of application message bursts offered by Next
+    BurstSizes,                              \* sizes of application message bursts offered by Next
+    PskIds,                                  \* external PSK identifiers
+    PskValues,                               \* values a party may hold for a PSK id ("none" = does not hold it)
+    Deviations                               \* named deviations of mls-rs from the properties that the model follows (known findings)
 
 VARIABLES
     grp,        \* [Parties -> member state | NoGroup]
@@ -45,11 +48,12 @@ VARIABLES
     store,      \* [Parties -> [snap: member state | NoGroup, epochs: Seq(prior epoch record)]]  GroupStateStorage
     apps,       \* Seq(application message burst); id = index
     det,        \* [Parties -> set of commit ids] detached commits (CommitSecrets held by the application)
+    pskStore,   \* [Parties -> [PskIds -> PskValues]] the application's PSK store of each party (constant per behaviour)
     hist,       \* history of steps for replay (hidden by VIEW)
     haux        \* per step: projection of the acting party's repository and storage after the step
 
-vars == <<grp, zomb, kps, props, commits, winner, opt, repo, store, apps, det, hist, haux>>
-view == <<grp, zomb, kps, props, commits, winner, opt, repo, store, apps, det>>
+vars == <<grp, zomb, kps, props, commits, winner, opt, repo, store, apps, det, pskStore, hist, haux>>
+view == <<grp, zomb, kps, props, commits, winner, opt, repo, store, apps, det, pskStore>>
 
 Str(i) == ToString(i)
 KpLeafKey(i) == "kpL" \o Str(i)
@@ -78,6 +82,10 @@ ItemOfProp(j) ==
     CASE pr.kind = "add" -> [kind |-> "add", ref |-> j, by |-> pr.byLeaf, kp |-> pr.kp]
       [] pr.kind = "rem" -> [kind |-> "rem", ref |-> j, by |-> pr.byLeaf, target |-> pr.target]
       [] pr.kind = "upd" -> [kind |-> "upd", ref |-> j, by |-> pr.byLeaf, key |-> UpdKey(j)]
+      [] pr.kind = "psk" -> [kind |-> "psk", ref |-> j, by |-> pr.byLeaf, id |-> pr.id]
+      [] pr.kind = "rpsk" -> [kind |-> "rpsk", ref |-> j, by |-> pr.byLeaf, epoch |-> pr.pe]
+      [] pr.kind = "gce" -> [kind |-> "gce", ref |-> j, by |-> pr.byLeaf, ver |-> pr.ver]
+      [] pr.kind = "reinit" -> [kind |-> "reinit", ref |-> j, by |-> pr.byLeaf]
 
 OfKind(items, k) == FilterSeq(items, LAMBDA it : it.kind = k)
 
@@ -129,7 +137,7 @@ ApplyAdds(mode, adds, i, acc) ==
     IF i > Len(adds) THEN acc
     ELSE LET it == adds[i]
              kp == kps[it.kp]
-             valid == kp.owner \notin Members(acc.tree) /\ it.kp \notin {a[1] : a \in SeqSet(acc.added)}
+             valid == kp.bad = "" /\ kp.owner \notin Members(acc.tree) /\ it.kp \notin {a[1] : a \in SeqSet(acc.added)}
              v == Verdict(mode, it, valid)
          IN IF v = "err" THEN [acc EXCEPT !.err = "rule:add-duplicate"]
             ELSE IF v = "drop" THEN ApplyAdds(mode, adds, i + 1, acc)
@@ -139,29 +147,93 @@ ApplyAdds(mode, adds, i, acc) ==
                         [acc EXCEPT !.tree = AddLeafAt(acc.tree, l, nl), !.kept = acc.kept \o <<it>>,
                                     !.added = acc.added \o <<<<it.kp, l>>>>, !.start = l])
 
-ApplyProposals(mode, tree, committer, items) ==
+(* PSK, group-context-extension and re-init proposals (filtering.rs,          *)
+(* filtering_common.rs filter_out_invalid_psks).  `who` is the party that    *)
+(* evaluates the rules: the committer when sending, the receiver otherwise. *)
+\*   [kind |-> "psk",  ref, by, id]       external PSK: valid iff `who` holds a value for id
+\*   [kind |-> "rpsk", ref, by, epoch]    resumption PSK of a past epoch: valid iff `who` still retains it
+\*   [kind |-> "gce",  ref, by, ver]      new group context extensions; at most one per commit
+\*   [kind |-> "reinit", ref, by]         re-initialisation; must be the only proposal
+HoldsPsk(who, id) == pskStore[who][id] # "none"
+
+RetainsEpoch(who, e) ==
+    \/ (grp[who].st = "member" /\ grp[who].epoch = e)
+    \/ \E i \in 1..Len(repo[who].ins) : repo[who].ins[i].epoch = e
+    \/ (~(repo[who].ins # <<>> /\ e >= repo[who].ins[1].epoch) /\
+          (\/ \E i \in 1..Len(repo[who].upd) : repo[who].upd[i].epoch = e
+           \/ \E i \in 1..Len(store[who].epochs) : store[who].epochs[i].epoch = e))
+
+\* a receiver resolves resumption PSKs only when it derives the key schedule (after the self-removal test),
+\* not while validating the proposal list
+PskValid(mode, who, it) == IF it.kind = "psk" THEN HoldsPsk(who, it.id) ELSE (mode = "recv" \/ RetainsEpoch(who, it.epoch))
+
+RECURSIVE FilterPsks(_, _, _, _, _)
+FilterPsks(mode, who, psks, i, acc) ==   \* acc = [kept, err]
+    IF i > Len(psks) THEN acc
+    ELSE LET v == Verdict(mode, psks[i], PskValid(mode, who, psks[i])) IN
+         IF v = "err" THEN [acc EXCEPT !.err = "rule:psk-unknown"]
+         \* Named deviation F12 (known finding, DESIGN section 6): mls-rs does not drop a by-reference
+         \* resumption PSK whose epoch the committer no longer retains; building the commit fails instead.
+         ELSE IF v = "drop" /\ psks[i].kind = "rpsk" /\ "F12" \in Deviations THEN [acc EXCEPT !.err = "rule:psk-unknown:F12"]
+         ELSE IF v = "drop" THEN FilterPsks(mode, who, psks, i + 1, acc)
+         ELSE FilterPsks(mode, who, psks, i + 1, [acc EXCEPT !.kept = acc.kept \o <<psks[i]>>])
+
+RECURSIVE FilterGces(_, _, _, _)
+FilterGces(mode, gces, i, acc) ==        \* only the first one survives
+    IF i > Len(gces) THEN acc
+    ELSE LET v == Verdict(mode, gces[i], acc.kept = <<>>) IN
+         IF v = "err" THEN [acc EXCEPT !.err = "rule:gce-more-than-one"]
+         ELSE IF v = "drop" THEN FilterGces(mode, gces, i + 1, acc)
+         ELSE FilterGces(mode, gces, i + 1, [acc EXCEPT !.kept = acc.kept \o <<gces[i]>>])
+
+\* filter_out_reinit_if_other_proposals: decided on the bundle before the tree is edited
+FilterReinit(mode, items) ==
+    LET reinits == OfKind(items, "reinit")
+        others == SelectSeq(items, LAMBDA it : it.kind # "reinit")
+    IN IF reinits = <<>> \/ Len(items) = 1 THEN [items |-> items, err |-> ""]
+       ELSE IF mode = "recv" \/ \E i \in 1..Len(reinits) : ~IsByRef(reinits[i])
+            THEN [items |-> items, err |-> "rule:reinit-not-alone"]
+       ELSE IF others # <<>> THEN [items |-> others, err |-> ""]
+       ELSE [items |-> <<reinits[1]>>, err |-> ""]
+
+ApplyProposals(mode, who, tree, committer, items0) ==
     LET \* proposer / committer rules (filtering.rs)
+        items == items0
         updNotCommitter == FilterSeq(items, LAMBDA it : ~(it.kind = "upd" /\ it.by = committer /\ Verdict(mode, it, FALSE) = "drop"))
         bad1 == \E i \in 1..Len(items) : items[i].kind = "upd" /\ items[i].by = committer /\ Verdict(mode, items[i], FALSE) = "err"
         remNotCommitter == FilterSeq(updNotCommitter, LAMBDA it : ~(it.kind = "rem" /\ it.target = committer /\ Verdict(mode, it, FALSE) = "drop"))
         bad2 == \E i \in 1..Len(updNotCommitter) : updNotCommitter[i].kind = "rem" /\ updNotCommitter[i].target = committer
                     /\ Verdict(mode, updNotCommitter[i], FALSE) = "err"
-        its == remNotCommitter
+        pk == FilterPsks(mode, who, SelectSeq(remNotCommitter, LAMBDA it : it.kind \in {"psk", "rpsk"}), 1, [kept |-> <<>>, err |-> ""])
+        gc == FilterGces(mode, OfKind(remNotCommitter, "gce"), 1, [kept |-> <<>>, err |-> ""])
+        \* what is left of the bundle after the PSK and GCE rules, in bundle order per type
+        afterRules == SelectSeq(remNotCommitter, LAMBDA it : it.kind \in {"add", "rem", "upd", "reinit"}) \o pk.kept \o gc.kept
+        ri == FilterReinit(mode, afterRules)
+        its == ri.items
         rems == OfKind(its, "rem")
         r1 == ApplyRemoves(mode, tree, rems, Len(rems), [tree |-> tree, kept |-> <<>>, err |-> ""])
         r2 == ApplyUpdates(mode, OfKind(its, "upd"), 1, [tree |-> r1.tree, kept |-> <<>>, err |-> "", leaves |-> {}])
         r3 == ApplyAdds(mode, OfKind(its, "add"), 1, [tree |-> r2.tree, kept |-> <<>>, err |-> "", added |-> <<>>, start |-> 0])
-        applied == r3.kept \o r1.kept \o r2.kept      \* bundle order: adds, removes, updates
+        \* bundle order: adds, removes, updates, psks, gce, reinit
+        applied == r3.kept \o r1.kept \o r2.kept \o SelectSeq(its, LAMBDA it : it.kind \in {"psk", "rpsk"})
+                   \o OfKind(its, "gce") \o OfKind(its, "reinit")
     IN IF bad1 THEN Res(FALSE, "rule:update-by-committer", tree, <<>>, <<>>, {}, {})
        ELSE IF bad2 THEN Res(FALSE, "rule:remove-committer", tree, <<>>, <<>>, {}, {})
+       ELSE IF pk.err # "" THEN Res(FALSE, pk.err, tree, <<>>, <<>>, {}, {})
+       ELSE IF gc.err # "" THEN Res(FALSE, gc.err, tree, <<>>, <<>>, {}, {})
+       ELSE IF ri.err # "" THEN Res(FALSE, ri.err, tree, <<>>, <<>>, {}, {})
        ELSE IF r1.err # "" THEN Res(FALSE, r1.err, tree, <<>>, <<>>, {}, {})
        ELSE IF r2.err # "" THEN Res(FALSE, r2.err, tree, <<>>, <<>>, {}, {})
        ELSE IF r3.err # "" THEN Res(FALSE, r3.err, tree, <<>>, <<>>, {}, {})
        ELSE Res(TRUE, "", Trim(r3.tree), applied, r3.added,
                 {it.target : it \in SeqSet(r1.kept)}, r2.leaves)
 
-\* path_update_required (proposal_filter.rs)
-PathNeeded(applied) == applied = <<>> \/ \E i \in 1..Len(applied) : applied[i].kind \in {"upd", "rem"}
+\* path_update_required (proposal_filter.rs): nothing at all, or an update / remove / GCE
+PathNeeded(applied) == applied = <<>> \/ \E i \in 1..Len(applied) : applied[i].kind \in {"upd", "rem", "gce"}
+
+PsksOf(applied) == SelectSeq(applied, LAMBDA it : it.kind \in {"psk", "rpsk"})
+HasReinit(applied) == \E i \in 1..Len(applied) : applied[i].kind = "reinit"
+NewExt(applied, old) == LET g == OfKind(applied, "gce") IN IF g = <<>> THEN old ELSE g[1].ver
 
 -----------------------------------------------------------------------------
 (* Private keys.  priv is a function from node indices to key ids.          *)
@@ -239,7 +311,7 @@ Proj(g) ==
           tree |-> [i \in 1..Len(g.tree) |-> ProjNode(g.tree[i])],
           priv |-> LET ns == SetToSortedSeq(DOMAIN g.priv) IN [i \in 1..Len(ns) |-> <<ns[i], g.priv[ns[i]]>>],
           cache |-> SetToSortedSeq(g.cache),
-          pend |-> g.pend]
+          pend |-> g.pend, ext |-> g.ext]
 
 Step(a, p, args, res, out) ==
     [a |-> a, p |-> p, args |-> args, res |-> res, out |-> out, post |-> Proj(grp'[p])]
@@ -247,6 +319,20 @@ Step(a, p, args, res, out) ==
 Record(a, p, args, res, out) == hist' = Append(hist, Step(a, p, args, res, out))
 
 -----------------------------------------------------------------------------
+(* Message ratchets (secret_tree.rs SecretKeyRatchet): next generation + retained skipped ones. *)
+NoRatchet == [next |-> 0, hist |-> {}]
+RatchetOf(recv, l) == IF l \in DOMAIN recv THEN recv[l] ELSE NoRatchet
+
+\* outcome of asking ratchet r for generation gen
+RatchetVerdict(r, gen) ==
+    IF gen < r.next THEN (IF gen \in r.hist THEN "ok" ELSE "err:replay")
+    ELSE IF gen > r.next + Window THEN "err:future"
+    ELSE "ok"
+
+RatchetAfter(r, gen) ==
+    IF gen < r.next THEN [r EXCEPT !.hist = @ \ {gen}]
+    ELSE [next |-> gen + 1, hist |-> r.hist \cup (r.next..(gen - 1))]
+
 (* Prior epochs (mls-rs/src/group/state_repo.rs, epoch.rs PriorEpoch).           *)
 PastRec(g) ==
     [ks |-> g.ks, epoch |-> g.epoch, leaf |-> g.leaf, recv |-> g.recv,
@@ -264,7 +350,7 @@ Init ==
                 IF p = Creator
                 THEN [st |-> "member", epoch |-> 0, ks |-> 0, leaf |-> 0,
                       tree |-> <<MkLeaf("g", Creator, 0, "kp")>>,
-                      priv |-> (0 :> "g"), cache |-> {}, pend |-> 0, pendUpd |-> {}, seenC |-> {}, sendGen |-> 0, recv |-> <<>>]
+                      priv |-> (0 :> "g"), cache |-> {}, pend |-> 0, pendUpd |-> {}, seenC |-> {}, sendGen |-> 0, recv |-> <<>>, hsSend |-> 0, hsRecv |-> <<>>, ext |-> 0, frozen |-> FALSE]
                 ELSE NoGroup]
     /\ zomb = [p \in Parties |-> <<>>]
     /\ kps = <<>> /\ props = <<>> /\ commits = <<>>
@@ -273,6 +359,7 @@ Init ==
     /\ store = [p \in Parties |-> [snap |-> NoGroup, epochs |-> <<>>, sql |-> <<>>]]
     /\ apps = <<>>
     /\ det = [p \in Parties |-> {}]
+    /\ pskStore \in [Parties -> [PskIds -> PskValues]]
     /\ hist = <<>>
     /\ haux = <<>>
 
@@ -281,9 +368,18 @@ GenKeyPackage(p) ==
     /\ Len(kps) < MaxKps
     /\ ~HasGroup(p)
     /\ ~\E i \in 1..Len(kps) : kps[i].owner = p /\ ~kps[i].used      \* one outstanding package per party
-    /\ kps' = Append(kps, [owner |-> p, cv |-> 0, used |-> FALSE])
+    /\ kps' = Append(kps, [owner |-> p, cv |-> 0, used |-> FALSE, bad |-> ""])
     /\ UNCHANGED <<grp, zomb, props, commits, winner, opt, repo, store, apps, det>>
-    /\ Record("GenKeyPackage", p, [kp |-> Len(kps) + 1], "ok", [x |-> 0])
+    /\ Record("GenKeyPackage", p, [kp |-> Len(kps) + 1, bad |-> ""], "ok", [x |-> 0])
+
+\* a key package nobody may add: expired lifetime, or a credential the application's identity provider
+\* rejects (key_package/validator.rs, leaf_node_validator.rs); owned by a throw-away identity
+GenBadKeyPackage(p, why) ==
+    /\ "badkp" \in Features /\ Len(kps) < MaxKps /\ why \in {"expired", "cred"}
+    /\ ~\E i \in 1..Len(kps) : kps[i].bad = why /\ ~kps[i].used
+    /\ kps' = Append(kps, [owner |-> "bad", cv |-> 0, used |-> FALSE, bad |-> why])
+    /\ UNCHANGED <<grp, zomb, props, commits, winner, opt, repo, store, apps, det>>
+    /\ Record("GenKeyPackage", p, [kp |-> Len(kps) + 1, bad |-> why], "ok", [x |-> 0])
 
 \* ---- proposals (by reference) ----
 NewProp(pr) ==
@@ -293,9 +389,10 @@ NewProp(pr) ==
 Propose(p, pr, argrec) ==
     LET g == grp[p]  j == Len(props) + 1 IN
     /\ HasGroup(p)
-    /\ NewProp(pr @@ [by |-> p, byLeaf |-> g.leaf, ks |-> g.ks, epoch |-> g.epoch])
+    /\ NewProp(pr @@ [by |-> p, byLeaf |-> g.leaf, ks |-> g.ks, epoch |-> g.epoch, gen |-> g.hsSend])
     /\ grp' = [grp EXCEPT ![p].cache = @ \cup {j},
-                          ![p].pendUpd = IF pr.kind = "upd" THEN @ \cup {j} ELSE @]
+                          ![p].pendUpd = IF pr.kind = "upd" THEN @ \cup {j} ELSE @,
+                          ![p].hsSend = IF opt.enc THEN @ + 1 ELSE @]
     /\ Record("Propose", p, argrec @@ [prop |-> j, kind |-> pr.kind], "ok", [x |-> 0])
     /\ UNCHANGED <<zomb, kps, commits, winner, opt, repo, store, apps, det>>
 
@@ -319,14 +416,41 @@ ProposeUpdate(p) ==
     /\ (AllowConflicts \/ grp[p].pendUpd = {})
     /\ Propose(p, [kind |-> "upd", kp |-> 0, target |-> 0], [x |-> 0])
 
+ProposePsk(p, id) ==
+    /\ "psk" \in Features /\ HasGroup(p) /\ id \in PskIds
+    /\ Propose(p, [kind |-> "psk", kp |-> 0, target |-> 0, id |-> id], [id |-> id])
+
+ProposeResumptionPsk(p, e) ==
+    /\ "psk" \in Features /\ HasGroup(p) /\ e \in 0..grp[p].epoch
+    /\ Propose(p, [kind |-> "rpsk", kp |-> 0, target |-> 0, pe |-> e], [pe |-> e])
+
+ProposeGce(p) ==
+    /\ "gce" \in Features /\ HasGroup(p)
+    \* at most one by-reference GCE per epoch: which of two the committer keeps depends on hash-map order
+    /\ ~\E j \in 1..Len(props) : props[j].kind = "gce" /\ props[j].ks = grp[p].ks
+    /\ Propose(p, [kind |-> "gce", kp |-> 0, target |-> 0, ver |-> Len(props) + 1], [ver |-> Len(props) + 1])
+
+ProposeReinit(p) ==
+    /\ "reinit" \in Features /\ HasGroup(p)
+    /\ ~\E j \in 1..Len(props) : props[j].kind = "reinit" /\ props[j].by = p /\ props[j].ks = grp[p].ks
+    /\ Propose(p, [kind |-> "reinit", kp |-> 0, target |-> 0], [x |-> 0])
+
 \* a member receives a proposal message
 DeliverProposal(q, j) ==
     LET g == grp[q]  pr == props[j] IN
     /\ j \in 1..Len(props) /\ HasGroup(q) /\ pr.by # q
     /\ j \notin g.cache
     /\ IF pr.ks = g.ks /\ pr.epoch = g.epoch
-       THEN /\ grp' = [grp EXCEPT ![q].cache = @ \cup {j}]
-            /\ Record("DeliverProposal", q, [prop |-> j], "ok", [x |-> 0])
+       THEN LET r == RatchetOf(g.hsRecv, pr.byLeaf)
+                v == IF opt.enc THEN RatchetVerdict(r, pr.gen) ELSE "ok"
+            IN IF v = "ok"
+               THEN /\ grp' = [grp EXCEPT ![q].cache = @ \cup {j},
+                                          ![q].hsRecv = IF opt.enc THEN (pr.byLeaf :> RatchetAfter(r, pr.gen)) @@ @ ELSE @]
+                    /\ Record("DeliverProposal", q, [prop |-> j], "ok", [x |-> 0])
+               ELSE \* an encrypted proposal whose handshake generation was already used by this sender
+                    \* (the sender was rolled back to an older snapshot) is a replay for the receiver
+                    /\ UNCHANGED grp
+                    /\ Record("DeliverProposal", q, [prop |-> j], v, [x |-> 0])
        ELSE /\ UNCHANGED grp
             /\ Record("DeliverProposal", q, [prop |-> j], "err:epoch", [x |-> 0])
     /\ UNCHANGED <<zomb, kps, props, commits, winner, opt, repo, store, apps, det>>
@@ -336,6 +460,10 @@ ByValueItems(g) ==
     \* candidate by-value proposals: add of an unused package, removal of a leaf (also invalid ones)
     {[kind |-> "add", ref |-> 0, by |-> g.leaf, kp |-> i] : i \in {i \in 1..Len(kps) : ~kps[i].used}}
     \cup {[kind |-> "rem", ref |-> 0, by |-> g.leaf, target |-> l] : l \in LeafSlots(g.tree)}
+    \cup (IF "psk" \in Features THEN {[kind |-> "psk", ref |-> 0, by |-> g.leaf, id |-> id] : id \in PskIds}
+                                        \cup {[kind |-> "rpsk", ref |-> 0, by |-> g.leaf, epoch |-> e] : e \in 0..g.epoch} ELSE {})
+    \cup (IF "gce" \in Features THEN {[kind |-> "gce", ref |-> 0, by |-> g.leaf, ver |-> 100 + Len(commits)]} ELSE {})
+    \cup (IF "reinit" \in Features THEN {[kind |-> "reinit", ref |-> 0, by |-> g.leaf]} ELSE {})
 
 ByValueSeqs(g) ==
     {<<>>} \cup (IF ByValueMax >= 1 THEN {<<a>> : a \in ByValueItems(g)} ELSE {})
@@ -352,7 +480,7 @@ Commit(p, byval, dt) ==
         act == IF dt THEN "CommitDetached" ELSE "Commit"
         n == Len(commits) + 1
         items == CachedItems(g) \o byval
-        ar == ApplyProposals("send", g.tree, g.leaf, items)
+        ar == ApplyProposals("send", p, g.tree, g.leaf, items)
         args == [byval |-> byval]
     IN
     /\ HasGroup(p) /\ Len(commits) < MaxCommits /\ g.epoch < MaxEpoch
@@ -365,6 +493,9 @@ Commit(p, byval, dt) ==
        ELSE IF g.pend # 0
        THEN /\ UNCHANGED <<grp, commits, det>>
             /\ Record(act, p, args, "err:pending-exists", [x |-> 0])
+       ELSE IF g.frozen
+       THEN /\ UNCHANGED <<grp, commits, det>>
+            /\ Record(act, p, args, "err:frozen", [x |-> 0])
        ELSE IF ~ar.ok
        THEN /\ UNCHANGED <<grp, commits, det>>
             /\ Record(act, p, args, "err:" \o ar.err, [x |-> 0])
@@ -385,9 +516,14 @@ Commit(p, byval, dt) ==
              c == [by |-> p, byLeaf |-> g.leaf, baseKs |-> g.ks, baseEpoch |-> g.epoch,
                    items |-> ar.applied, path |-> withPath, pathKeys |-> pathKeys, recips |-> recips,
                    added |-> ar.added, removed |-> ar.removed, newTree |-> tree1, newPriv |-> newPriv,
-                   unused |-> unused]
+                   unused |-> unused, gen |-> g.hsSend,
+                   \* PSKs in wire order with the values the committer used (external) / the epoch referenced
+                   psks |-> LET ps == PsksOf(ar.applied) IN
+                            [i \in 1..Len(ps) |-> IF ps[i].kind = "psk" THEN [kind |-> "psk", id |-> ps[i].id, val |-> pskStore[p][ps[i].id]]
+                                                  ELSE [kind |-> "rpsk", epoch |-> ps[i].epoch]],
+                   newExt |-> NewExt(ar.applied, g.ext), reinit |-> HasReinit(ar.applied)]
          IN /\ commits' = Append(commits, c)
-            /\ grp' = IF dt THEN grp ELSE [grp EXCEPT ![p].pend = n]
+            /\ grp' = [grp EXCEPT ![p].pend = IF dt THEN @ ELSE n, ![p].hsSend = IF opt.enc THEN @ + 1 ELSE @]
             /\ det' = IF dt THEN [det EXCEPT ![p] = @ \cup {n}] ELSE det
             /\ Record(act, p, args, "ok",
                       [commit |-> n, path |-> withPath,
@@ -397,6 +533,7 @@ Commit(p, byval, dt) ==
                        addedLeaves |-> [i \in 1..Len(ar.added) |-> ar.added[i][2]],
                        recips |-> LET xs == SetToSortedSeq(DOMAIN recips) IN [i \in 1..Len(xs) |-> [node |-> xs[i], keys |-> recips[xs[i]]]],
                        welcomeKeys |-> [i \in 1..Len(ar.added) |-> KpInitKey(ar.added[i][1])],
+                       ext |-> NewExt(ar.applied, g.ext), reinit |-> HasReinit(ar.applied),
                        newTree |-> [i \in 1..Len(tree1) |-> ProjNode(tree1[i])]])
     /\ UNCHANGED <<zomb, kps, props, winner, opt, repo, store, apps>>
 
@@ -422,7 +559,8 @@ IsWinner(n) == winner[commits[n].baseEpoch] = n
 ApplyOwn(g, n) ==
     LET c == commits[n] IN
     [g EXCEPT !.epoch = g.epoch + 1, !.ks = n, !.tree = c.newTree, !.priv = c.newPriv,
-              !.cache = {}, !.pend = 0, !.pendUpd = {}, !.seenC = {}, !.sendGen = 0, !.recv = <<>>]
+              !.ext = c.newExt, !.frozen = c.reinit,
+              !.cache = {}, !.pend = 0, !.pendUpd = {}, !.seenC = {}, !.sendGen = 0, !.recv = <<>>, !.hsSend = 0, !.hsRecv = <<>>]
 
 ApplyPending(p) ==
     LET g == grp[p] IN
@@ -442,7 +580,7 @@ DeliverCommit(q, n) ==
         c == commits[n]
         args == [commit |-> n]
         refs == {c.items[i].ref : i \in {i \in 1..Len(c.items) : IsByRef(c.items[i])}}
-        ar == ApplyProposals("recv", g.tree, c.byLeaf, c.items)
+        ar == ApplyProposals("recv", q, g.tree, c.byLeaf, c.items)
         addedLeaves == {a[2] : a \in SeqSet(ar.added)}
     IN
     /\ n \in 1..Len(commits) /\ HasGroup(q)
@@ -450,6 +588,14 @@ DeliverCommit(q, n) ==
     /\ IF c.baseEpoch # g.epoch \/ c.baseKs # g.ks
        THEN /\ UNCHANGED <<grp, zomb>>
             /\ Record("DeliverCommit", q, args, "err:epoch", [x |-> 0])
+       ELSE IF opt.enc /\ c.by # q /\ RatchetVerdict(RatchetOf(g.hsRecv, c.byLeaf), c.gen) # "ok"
+       THEN \* encrypted commit whose handshake key this receiver no longer has (already used, or too far ahead)
+            /\ UNCHANGED <<grp, zomb>>
+            /\ Record("DeliverCommit", q, args, RatchetVerdict(RatchetOf(g.hsRecv, c.byLeaf), c.gen), [x |-> 0])
+       ELSE IF g.frozen
+       THEN \* a re-init has been committed: the group refuses further commits
+            /\ UNCHANGED <<grp, zomb>>
+            /\ Record("DeliverCommit", q, args, "err:frozen", [x |-> 0])
        ELSE IF c.by = q /\ g.pend = n
        THEN \* own commit echoed back: matched by message hash, pending commit applied
             /\ grp' = [grp EXCEPT ![q] = ApplyOwn(g, n)]
@@ -469,10 +615,11 @@ DeliverCommit(q, n) ==
        ELSE IF g.leaf \in ar.removed
        THEN \* removed member: reports the removal and does not advance; an encrypted commit can be
             \* decrypted only once (its message key is consumed), a second delivery is a replay
-            IF opt.enc /\ n \in g.seenC
+            IF FALSE
             THEN /\ UNCHANGED <<grp, zomb>>
                  /\ Record("DeliverCommit", q, args, "err:replay", [x |-> 0])
-            ELSE /\ grp' = [grp EXCEPT ![q].seenC = @ \cup {n}]
+            ELSE /\ grp' = [grp EXCEPT ![q].seenC = @ \cup {n},
+                                       ![q].hsRecv = IF opt.enc THEN (c.byLeaf :> RatchetAfter(RatchetOf(g.hsRecv, c.byLeaf), c.gen)) @@ @ ELSE @]
                  /\ UNCHANGED zomb
                  /\ Record("DeliverCommit", q, args, "ok:removed", [x |-> 0])
        ELSE
@@ -489,12 +636,23 @@ DeliverCommit(q, n) ==
                               dpr == DirectPathOf(tree1, g.leaf)
                           IN {x \in DOMAIN priv0 : ~\E i \in lvl..Len(dpr) : dpr[i] = x}
                      ELSE DOMAIN priv0
+             \* C18: the epoch secret binds the PSK values; a receiver holding another value computes another
+             \* confirmation tag
+             pskSame == \A i \in 1..Len(c.psks) : c.psks[i].kind = "psk" => pskStore[q][c.psks[i].id] = c.psks[i].val
+             rpskOk == \A i \in 1..Len(c.psks) : c.psks[i].kind = "rpsk" => RetainsEpoch(q, c.psks[i].epoch)
          IN IF ~dec.ok
             THEN /\ UNCHANGED <<grp, zomb>>
                  /\ Record("DeliverCommit", q, args, "err:decap-" \o dec.why, [x |-> 0])
+            ELSE IF ~rpskOk
+            THEN /\ UNCHANGED <<grp, zomb>>
+                 /\ Record("DeliverCommit", q, args, "err:rule:psk-unknown", [x |-> 0])
+            ELSE IF ~pskSame
+            THEN /\ UNCHANGED <<grp, zomb>>
+                 /\ Record("DeliverCommit", q, args, "err:conf-tag", [x |-> 0])
             ELSE /\ grp' = [grp EXCEPT ![q] = [g EXCEPT !.epoch = g.epoch + 1, !.ks = n, !.tree = tree1,
+                                                        !.ext = c.newExt, !.frozen = c.reinit,
                                                         !.priv = MergeFn(RestrictFn(priv0, keep), learned),
-                                                        !.cache = {}, !.pend = 0, !.pendUpd = {}, !.seenC = {}, !.sendGen = 0, !.recv = <<>>]]
+                                                        !.cache = {}, !.pend = 0, !.pendUpd = {}, !.seenC = {}, !.sendGen = 0, !.recv = <<>>, !.hsSend = 0, !.hsRecv = <<>>]]
                  /\ UNCHANGED zomb
                  /\ Record("DeliverCommit", q, args, IF c.by = q THEN "ok:own" ELSE "ok", [x |-> 0])
     /\ RepoFollows(q)
@@ -512,9 +670,17 @@ JoinWelcome(q, n) ==
            kp == c.added[i][1]
            l == c.added[i][2]
            learned == IF c.path THEN LearnedKeys(c.newTree, c.byLeaf, l, c.pathKeys) ELSE <<>>
-       IN /\ grp' = [grp EXCEPT ![q] = [st |-> "member", epoch |-> c.baseEpoch + 1, ks |-> n, leaf |-> l,
+           \* C18: a joiner needs the same PSKs; it has no past epochs, so a resumption PSK cannot be resolved
+           pskKnown == \A j \in 1..Len(c.psks) : c.psks[j].kind = "psk" /\ pskStore[q][c.psks[j].id] # "none"
+           pskSame == \A j \in 1..Len(c.psks) : c.psks[j].kind = "psk" => pskStore[q][c.psks[j].id] = c.psks[j].val
+       IN IF ~pskKnown \/ ~pskSame
+          THEN /\ UNCHANGED <<grp, kps, repo>>
+               /\ Record("JoinWelcome", q, [commit |-> n, kp |-> kp], IF ~pskKnown THEN "err:rule:psk-unknown" ELSE "err:decrypt", [x |-> 0])
+          ELSE
+          /\ grp' = [grp EXCEPT ![q] = [st |-> "member", epoch |-> c.baseEpoch + 1, ks |-> n, leaf |-> l,
                                         tree |-> c.newTree, priv |-> MergeFn((2 * l :> KpLeafKey(kp)), learned),
-                                        cache |-> {}, pend |-> 0, pendUpd |-> {}, seenC |-> {}, sendGen |-> 0, recv |-> <<>>]]
+                                        cache |-> {}, pend |-> 0, pendUpd |-> {}, seenC |-> {}, sendGen |-> 0, recv |-> <<>>, hsSend |-> 0, hsRecv |-> <<>>,
+                                        ext |-> c.newExt, frozen |-> c.reinit]]
           /\ kps' = [kps EXCEPT ![kp].used = TRUE]
           /\ repo' = [repo EXCEPT ![q] = [ins |-> <<>>, upd |-> <<>>]]
           /\ Record("JoinWelcome", q, [commit |-> n, kp |-> kp], "ok", [x |-> 0])
@@ -535,19 +701,6 @@ Retire(q) ==
 (* A burst is k consecutive generations encrypted by one sender in one      *)
 (* epoch; any generation of any burst can be delivered to anybody at any    *)
 (* time (reordering, duplication, late delivery).                           *)
-NoRatchet == [next |-> 0, hist |-> {}]
-RatchetOf(recv, l) == IF l \in DOMAIN recv THEN recv[l] ELSE NoRatchet
-
-\* outcome of asking ratchet r for generation gen
-RatchetVerdict(r, gen) ==
-    IF gen < r.next THEN (IF gen \in r.hist THEN "ok" ELSE "err:replay")
-    ELSE IF gen > r.next + Window THEN "err:future"
-    ELSE "ok"
-
-RatchetAfter(r, gen) ==
-    IF gen < r.next THEN [r EXCEPT !.hist = @ \ {gen}]
-    ELSE [next |-> gen + 1, hist |-> r.hist \cup (r.next..(gen - 1))]
-
 Encrypt(p, k) ==
     LET g == grp[p] IN
     /\ "apps" \in Features /\ HasGroup(p) /\ Len(apps) < MaxApps /\ k >= 1
@@ -674,6 +827,11 @@ Next ==
     \/ \E p \in Parties : \E i \in 1..Len(kps) : ProposeAdd(p, i)
     \/ \E p \in Parties : \E l \in 0..7 : ProposeRemove(p, l)
     \/ \E p \in Parties : ProposeUpdate(p)
+    \/ \E p \in Parties : \E why \in {"expired", "cred"} : GenBadKeyPackage(p, why)
+    \/ \E p \in Parties : \E id \in PskIds : ProposePsk(p, id)
+    \/ \E p \in Parties : \E e \in 0..MaxEpoch : ProposeResumptionPsk(p, e)
+    \/ \E p \in Parties : ProposeGce(p)
+    \/ \E p \in Parties : ProposeReinit(p)
     \/ \E q \in Parties : \E j \in 1..Len(props) : DeliverProposal(q, j)
     \/ \E p \in Parties : HasGroup(p) /\ \E bv \in ByValueSeqs(grp[p]) : \E dt \in BOOLEAN : Commit(p, bv, dt)
     \/ \E p \in Parties : ClearPending(p)
@@ -697,7 +855,7 @@ AuxOf(p) ==
      snap |-> IF store'[p].snap.st = "member" THEN store'[p].snap.epoch ELSE 0,
      hasSnap |-> store'[p].snap.st = "member"]
 
-Logged(A) == A /\ haux' = Append(haux, AuxOf(hist'[Len(hist')].p))
+Logged(A) == A /\ UNCHANGED pskStore /\ haux' = Append(haux, AuxOf(hist'[Len(hist')].p))
 
 Spec == Init /\ [][Logged(Next)]_vars
 
@@ -793,6 +951,31 @@ StepsByOne ==
         (grp[p].st = "member" /\ grp'[p].st = "member" /\ grp'[p].ks # grp[p].ks) =>
             \/ (grp'[p].epoch = grp[p].epoch + 1 /\ commits[grp'[p].ks].baseKs = grp[p].ks)
             \/ grp'[p] = store[p].snap]_vars
+
+\* C10: whatever the sender's filter keeps is exactly what the receiver's stricter mode accepts: every
+\* member of the commit's base epoch that has the referenced proposals (and the PSKs) validates the
+\* committed list to the same applied list and the same tree
+SendImpliesRecv ==
+    \A n \in 1..Len(commits) : \A q \in Parties :
+        LET c == commits[n]
+            refs == {c.items[i].ref : i \in {i \in 1..Len(c.items) : IsByRef(c.items[i])}}
+        IN (HasGroup(q) /\ grp[q].ks = c.baseKs /\ q # c.by /\ refs \subseteq grp[q].cache) =>
+              LET ar == ApplyProposals("recv", q, grp[q].tree, c.byLeaf, c.items) IN
+              \/ (~ar.ok /\ ar.err = "rule:psk-unknown")      \* a member that does not hold a PSK must reject
+              \/ (ar.ok /\ ar.applied = c.items /\ ar.added = c.added /\ ar.removed = c.removed)
+
+\* C10: a committed list never breaks an RFC 9420 12.2 rule
+CommittedListsLegal ==
+    \A n \in 1..Len(commits) :
+        LET c == commits[n]  its == c.items IN
+        /\ ~\E i \in 1..Len(its) : its[i].kind = "upd" /\ its[i].by = c.byLeaf
+        /\ ~\E i \in 1..Len(its) : its[i].kind = "rem" /\ its[i].target = c.byLeaf
+        /\ Len(OfKind(its, "gce")) <= 1
+        /\ (HasReinit(its) => Len(its) = 1)
+        /\ \A i, j \in 1..Len(its) : (i # j /\ its[i].kind \in {"upd", "rem"} /\ its[j].kind \in {"upd", "rem"}) =>
+              (IF its[i].kind = "upd" THEN its[i].by ELSE its[i].target) # (IF its[j].kind = "upd" THEN its[j].by ELSE its[j].target)
+        /\ \A i \in 1..Len(its) : its[i].kind = "add" => kps[its[i].kp].bad = ""
+        /\ (PathNeeded(its) => c.path)
 
 TypeOK ==
     /\ \A p \in Parties : grp[p].st \in {"none", "member"}
